@@ -24,6 +24,7 @@
 (*              the shorthand `f` is written `S { f , }`;                   *)
 (*  no block expression: `{ .. }` is a body (branch, loop body, closure     *)
 (*              body, match arm), not an expression of its own.             *)
+(* The one-element tuple expression is written `( e , )`; `( e )` groups.   *)
 (* Patterns have no grouping parentheses: `( p )` is the one-element tuple  *)
 (* pattern; a lone identifier is a variable pattern, `C ( )` and `E :: C`   *)
 (* are constructor patterns.                                                *)
@@ -134,6 +135,7 @@ Form(n, kd, s) ==
          \cup (IF n >= 2 THEN {Call(Field(V), <<a>>) : a \in Exprs(n - 2)} ELSE {})
     [] kd = "field" -> {Field(e) : e \in {x \in Exprs(n - 1) : x # N}}
     [] kd = "tuple" -> {Tup(<<a, b>>) : a \in Exprs(s[1]), b \in Exprs(s[2])}
+                       \cup (IF s[2] = 0 THEN {Tup(<<a>>) : a \in Exprs(s[1])} ELSE {})      \* the one-element tuple `( a , )`
     [] kd = "array" ->
          (IF n = 1 THEN {Arr(<<>>)} ELSE {})
          \cup {Arr(<<a>>) : a \in Exprs(n - 1)}
@@ -230,7 +232,7 @@ RenderRaw(e, rf) ==
     [] e.k = "un" -> <<"-">> \o Render(e.e, PREFIX, rf)
     [] e.k = "call" -> Render(e.f, POSTFIX, FALSE) \o <<"(">> \o RenderList(e.as, 1) \o <<")">>
     [] e.k = "field" -> Render(e.e, POSTFIX, FALSE) \o <<".", "f">>
-    [] e.k = "tuple" -> <<"(">> \o RenderList(e.es, 1) \o <<")">>
+    [] e.k = "tuple" -> <<"(">> \o RenderList(e.es, 1) \o (IF Len(e.es) = 1 THEN <<",">> ELSE <<>>) \o <<")">>
     [] e.k = "array" -> <<"[">> \o RenderList(e.es, 1) \o <<"]">>
     [] e.k = "struct" -> <<"S", "{">> \o RenderFields(e.fs, 1) \o (IF Len(e.fs) = 1 /\ e.fs[1].sh THEN <<",">> ELSE <<>>) \o <<"}">>
     [] e.k = "if" -> <<"if">> \o RenderHead(e.c, EmptyBraces(e.th)) \o RenderBody(e.th, FALSE) \o <<"else">> \o RenderBody(e.el, rf)
@@ -351,10 +353,13 @@ ParseAtom(ts, i) ==
               ELSE LET l == ParseFields(ts, i + 2, <<>>) IN IF IsErr(l) THEN Err ELSE [t |-> SLit(l.fs), i |-> l.i])
         ELSE IF x = "v" THEN [t |-> V, i |-> i + 1] ELSE Err)
   ELSE IF x = "(" THEN
-       (LET l == ParseList(ts, i + 1, ")", <<>>) IN
-        IF IsErr(l) \/ l.es = <<>> THEN Err
-        ELSE IF Len(l.es) = 1 THEN [t |-> l.es[1], i |-> l.i]     \* grouping parentheses
-        ELSE [t |-> Tup(l.es), i |-> l.i])
+       (LET first == ParseExpr(ts, i + 1, 0) IN
+        IF IsErr(first) THEN Err
+        ELSE IF Tok(ts, first.i) = "," /\ Tok(ts, first.i + 1) = ")" THEN [t |-> Tup(<<first.t>>), i |-> first.i + 2]   \* `( e , )`
+        ELSE LET l == ParseList(ts, i + 1, ")", <<>>) IN
+             IF IsErr(l) \/ l.es = <<>> THEN Err
+             ELSE IF Len(l.es) = 1 THEN [t |-> l.es[1], i |-> l.i]     \* grouping parentheses
+             ELSE [t |-> Tup(l.es), i |-> l.i])
   ELSE IF x = "[" THEN
        (LET l == ParseList(ts, i + 1, "]", <<>>) IN IF IsErr(l) THEN Err ELSE [t |-> Arr(l.es), i |-> l.i])
   ELSE IF x = "if" THEN
